@@ -42,3 +42,101 @@ Inductive sorted_prio (c : nat) : list rule -> Prop :=
 | sp_one r : sorted_prio c [r]
 | sp_cons a b t va vb : prio_of c a = Some va -> prio_of c b = Some vb -> (va <= vb)%Z ->
     sorted_prio c (b :: t) -> sorted_prio c (a :: b :: t).
+
+(* ---------- subject hierarchy (model.SortPoliciesBySubjectHierarchy) ---------- *)
+Local Open Scope string_scope.
+
+(* getNameWithDomain(domain, name) = domain + "::" + name; defaultDomain = "" *)
+Definition hname (d n : string) : string := d ++ "::" ++ n.
+
+Definition set_val (k : string) (v : nat) (m : smap nat) : smap nat :=
+  (fix go (m : smap nat) : smap nat :=
+     match m with
+     | [] => [(k, v)]
+     | (k', v') :: t => if String.eqb k k' then (k', v) :: t else (k', v') :: go t
+     end) m.
+
+Fixpoint set_val_list (k : string) (x : string) (pm : smap (list string)) : smap (list string) :=
+  match pm with
+  | [] => [(k, [x])]
+  | (k', l) :: t => if String.eqb k k' then (k', (l ++ [x])%list) :: t else (k', l) :: set_val_list k x t
+  end.
+
+(* first loop of getSubjectHierarchyMap: None = "policy g expect 2 more params" *)
+Fixpoint hier_init (gs : list rule) (m : smap nat) (pm : smap (list string))
+  : option (smap nat * smap (list string)) :=
+  match gs with
+  | [] => Some (m, pm)
+  | r :: t =>
+      match r with
+      | c :: p :: rest =>
+          let d := match rest with [] => "" | d :: _ => d end in
+          let child := hname d c in
+          let parent := hname d p in
+          let pm1 := set_val_list parent child pm in
+          let m1 := match lookup child m with Some _ => m | None => set_val child 0 m end in
+          let m2 := match lookup parent m1 with Some _ => m1 | None => set_val parent 0 m1 end in
+          hier_init t (set_val child 1 m2) pm1
+      | _ => None
+      end
+  end.
+
+Definition children (pm : smap (list string)) (x : string) : list string :=
+  match lookup x pm with Some l => l | None => [] end.
+
+Fixpoint dedup_first (seen : list string) (l : list string) : list string :=
+  match l with
+  | [] => []
+  | x :: t => if mem_str x seen then dedup_first seen t else x :: dedup_first (x :: seen) t
+  end.
+
+Inductive hres := HOk (m : smap nat) | HErr | HOutOfFuel.
+
+(* the level-order traversal from one root: `for lv := 0; len(level) != 0; lv++` with the
+   cycle test `lv > len(subjectHierarchyMap)`; n = number of names *)
+Fixpoint levels (pm : smap (list string)) (n : nat) (fuel : nat) (lv : nat) (level : list string) (m : smap nat) : hres :=
+  match level with
+  | [] => HOk m
+  | _ =>
+      if Nat.ltb n lv then HErr
+      else match fuel with
+           | 0 => HOutOfFuel
+           | S f =>
+               let m' := fold_left (fun m x => set_val x lv m) level m in
+               let next := dedup_first [] (flat_map (children pm) level) in
+               levels pm n f (S lv) next m'
+           end
+  end.
+
+(* `for k, v := range subjectHierarchyMap { if v != 0 continue; ... }`; the Go map order is
+   modelled as insertion order (irrelevant when every name has at most one root above it) *)
+Fixpoint all_roots (pm : smap (list string)) (n : nat) (roots : list string) (m : smap nat) : hres :=
+  match roots with
+  | [] => HOk m
+  | k :: t =>
+      match lookup k m with
+      | Some 0 =>
+          match levels pm n (S n) 0 [k] m with
+          | HOk m' => all_roots pm n t m'
+          | other => other
+          end
+      | _ => all_roots pm n t m
+      end
+  end.
+
+Definition hierarchy_map (gs : list rule) : hres :=
+  match hier_init gs [] [] with
+  | None => HErr
+  | Some (m, pm) => all_roots pm (List.length m) (map fst m) m
+  end.
+
+Definition level_of (m : smap nat) (dom_idx : option nat) (r : rule) : nat :=
+  let d := match dom_idx with Some i => nth i r "" | None => "" end in
+  match lookup (hname d (nth 0 r "")) m with Some v => v | None => 0 end.
+
+(* sort.SliceStable(policies, p1 > p2) *)
+Definition sort_by_hierarchy (gs : list rule) (dom_idx : option nat) (ps : list rule) : option (list rule) :=
+  match hierarchy_map gs with
+  | HOk m => Some (insertion_sort (fun a b => Nat.ltb (level_of m dom_idx b) (level_of m dom_idx a)) ps)
+  | _ => None
+  end.
